@@ -232,16 +232,25 @@ pub fn names_check(ctx: &WorkerCtx, out: &mut WorkerOut) {
         let total = n.pow(len as u32);
         for idx in 0..total {
             shard += 1;
-            // shard by the first two tokens so that strings differing only in trailing parts share a worker
-            let key = if len >= 2 { idx % (n * n) } else { 0 };
-            if key % ctx.nworkers != ctx.widx {
-                continue;
-            }
             let mut s = String::from("projects/");
             let mut k = idx;
             for _ in 0..len {
                 s.push_str(NAME_TOKENS[(k % n) as usize]);
                 k /= n;
+            }
+            // shard by a normalised form (case folded, repeated and trailing slashes dropped), so
+            // that strings which a lenient comparison could identify meet in one worker's
+            // injectivity table
+            let mut norm = String::with_capacity(s.len());
+            for ch in s.to_lowercase().chars() {
+                if ch == '/' && norm.ends_with('/') {
+                    continue;
+                }
+                norm.push(ch);
+            }
+            let key = crate::trace::fnv(norm.trim_end_matches('/').as_bytes());
+            if key % ctx.nworkers != ctx.widx {
+                continue;
             }
             evals += 1;
             if let Some((rule, detail)) = oracle.check(&s) {
